@@ -260,6 +260,22 @@ int main(int argc, char **argv)
     colvarmodule *cv = px->colvars;
 
     if (cmd == "keeplog") { px->keep_log = atoi(w[1].c_str()); continue; }
+    if (cmd == "dumplog") {
+      std::string pat = w.size() > 1 ? pct_decode(w[1]) : "";
+      std::string e = "\"lines\":[";
+      bool first = true;
+      for (auto const &l : px->log_lines) {
+        if (pat.empty() || l.find(pat) != std::string::npos) {
+          if (!first) e += ",";
+          first = false;
+          e += jstr(l);
+        }
+      }
+      e += "]";
+      px->log_lines.clear();
+      emit_simple("log", 0, e);
+      continue;
+    }
     if (cmd == "cell") {
       if (w[1] == "none") px->set_cell(0, 0, 0, 0);
       else { read_reals(w, 2, r); px->set_cell(1, r[0], r[1], r[2]); }
